@@ -41,7 +41,7 @@ def cases(tier, seed):
                    'encrypt': r.choice([None, None, 'key', 'pass', 'key-then-sign']), 'hashes': [r.choice(list(sigwork.HASHES)) for _ in range(ns)]})
     # megabytes under every compression algorithm (sizes around the points where a length-dependent parameter could change: 0.9, 1.0, 2 MiB)
     for j, comp in enumerate(encwork.COMPRESSIONS):
-        for k_, content in enumerate(['huge', 'huge2'] if tier == 'quick' else ['huge', 'huge2', 'huge3']):
+        for k_, content in enumerate(['huge', 'huge2', 'zeros1m'] if tier == 'quick' else ['huge', 'huge2', 'zeros1m', 'huge3']):
             cs.append({'i': 100000 + 10 * j + k_, 'content': content, 'format': 'b', 'filename': None, 'mtime': 1, 'comp': comp, 'signers': SIGNERS[:(j + k_) % 2], 'same_time': False,
                        'encrypt': [None, 'key'][(j + k_) % 2] if content == 'huge' else None, 'hashes': ['SHA256'][:(j + k_) % 2]})
     for i in range(8):
@@ -62,6 +62,8 @@ def content_of(name, r):
         return bytes(r.getrandbits(8) for _ in range(700)) + b'\x00\r\n\xff', None
     if name == 'crlf':
         return 'line one\r\nline two\rline three\n', None
+    if name == 'zeros1m':
+        return b'\x00' * 1000000, None
     if name == 'huge':
         return bytes(r.getrandbits(8) for _ in range(1024)) * 1200, None          # 1.2 MB
     if name == 'huge2':
@@ -78,7 +80,7 @@ def build(d, r):
     md = {'body': 'ascii', 'comp': d['comp']}
     kw = {'compression': getattr(CompressionAlgorithm, d['comp'])}
     fmt = d['format']
-    if isinstance(content, bytes) and fmt in ('t', 'u') and d['content'] in ('binary', 'big', 'huge', 'huge2', 'huge3', 'latin1') and not charset:
+    if isinstance(content, bytes) and fmt in ('t', 'u') and d['content'] in ('binary', 'big', 'huge', 'huge2', 'huge3', 'zeros1m', 'latin1') and not charset:
         fmt = 'b'
     if charset:
         kw['encoding'] = charset
